@@ -157,7 +157,7 @@ func TestC12Modules(t *testing.T) {
 		ctxB, _ := frozen.CacheContext()
 		func() {
 			defer func() {
-				if r := recover(); r != nil {
+				if r := notRapid(recover()); r != nil {
 					t.Fatalf("importing the exported custom-module genesis panicked: %v\nhistory:\n%s", r, jsonStr(c.log))
 				}
 			}()
